@@ -1,0 +1,45 @@
+// +build verif
+
+package tcp
+
+import (
+	"time"
+
+	tcpip "github.com/brewlin/net-protocol/protocol"
+)
+
+// verifTimerScale stretches every timer of this package in verification builds so that none
+// fires on its own while a harness steps the stack; the harness expires them explicitly.
+const verifTimerScale = 1000
+
+type timerVerif struct {
+	lastD time.Duration // the duration the timer was last armed with (unscaled)
+}
+
+func (t *timer) verifArm(d time.Duration) time.Duration {
+	t.lastD = d
+	return d * verifTimerScale
+}
+
+// VerifFireResendTimer expires the retransmission timer of a connected endpoint now, if it is
+// armed, and reports the duration it had been armed with. The endpoint's goroutine must be
+// parked (the caller steps the stack between quiescent points).
+func VerifFireResendTimer(ep tcpip.Endpoint) (armed bool, d time.Duration) {
+	e, ok := ep.(*endpoint)
+	if !ok {
+		return false, 0
+	}
+	if !e.workMu.TryLock() {
+		return false, 0
+	}
+	if e.snd == nil || !e.snd.resendTimer.enabled() {
+		e.workMu.Unlock()
+		return false, 0
+	}
+	t := &e.snd.resendTimer
+	d = t.lastD
+	t.target = time.Now()
+	e.workMu.Unlock()
+	e.snd.resendWaker.Assert()
+	return true, d
+}
